@@ -85,7 +85,13 @@ func (e EvmEngine) genLeaf(r *Run, bit int, nNodes int, v *ChainView) []PAct {
 	switch r.Rng.IntN(16) {
 	case 14, 15:
 		// query methods: whatever they do to native state must go the way of their frame like everything else
-		switch r.Rng.IntN(5) {
+		switch r.Rng.IntN(8) {
+		case 5:
+			return []PAct{mk("crosschain", "hasOracle", "$chain", someone())}
+		case 6:
+			return []PAct{mk("crosschain", "isOracleOnline", "$chain", someone())}
+		case 7:
+			return []PAct{mk("crosschain", "bridgeCoinAmount", "$USDT", "eth")}
 		case 0, 1:
 			if r.Pct(60) {
 				return []PAct{mk("staking", "delegationRewards", val, strings.Replace(val, "$valop", "$valacc", 1))}
